@@ -42,6 +42,7 @@ def join_case(cmd, args):
 def same(a, m):
     """implementation result vs model result, through what properties observe: value (+logs) on success, error-ness, panic-ness"""
     ha, hm = a.split("\t")[0], m.split("\t")[0]
+    if ha == "skipped-after-hangs" or hm == "skipped-after-hangs": return True       # not run (see jl.run_impl)
     if ha.startswith("ok") and hm.startswith("ok"):
         return a == m
     return jl.classify(ha).split(" ")[0] == jl.classify(hm).split(" ")[0]
@@ -154,6 +155,26 @@ class Runner:
             if nxt is None: break
             cur = nxt
         return join_case(*cur)
+
+
+def owners_in(line):
+    """the properties owning any operator that occurs anywhere in the (shrunk) rule: a minimal failing case needs everything left in it"""
+    try:
+        cmd, args = split_case(line)
+    except Exception:
+        return set()
+    if cmd != "apply": return set()
+    found = set()
+    def walk(v):
+        if isinstance(v, dict):
+            if gen.is_op_shaped(v):
+                k = next(iter(v))
+                if k in streams.OWNER: found.add(streams.OWNER[k])
+            for x in v.values(): walk(x)
+        elif isinstance(v, list):
+            for x in v: walk(x)
+    walk(args[0])
+    return found
 
 
 def owner_of(line):
@@ -415,7 +436,7 @@ class Explore:
             if self.pid == "C01":
                 if bad: self.violations.append(rec)
                 else: self.foreign.append(rec)
-            elif domain is None or own in domain or (bad and own in domain):
+            elif domain is None or own in domain or (owners_in(small) & set(domain)):
                 self.violations.append(rec)
             else:
                 self.foreign.append(rec)
@@ -621,13 +642,14 @@ def explore(pid, tier, seed, ex):
         both(streams.s_cat_substr(g, tier), {"C16"}, "cat/substr")
     elif pid == "C17":
         run_c17(ex, g, tier)
+        seen_for_boundary.extend(g.random_cases(60, depth=3))       # purity at the boundaries too: the caller's rule and data are left as they were
     elif pid == "C18":
         import wrappers
         wrappers.run_c18(ex, g, tier)
     elif pid == "C19":
         import wrappers
         wrappers.run_c19(ex, g, tier)
-    if pid not in ("C17", "C18", "C19") and seen_for_boundary:
+    if pid not in ("C18", "C19") and seen_for_boundary:
         import wrappers
         wrappers.boundary_sample(ex, seen_for_boundary, 60 if tier == "quick" else 600)
 
